@@ -252,6 +252,7 @@ class _C13(Spec):
     pid = "C13"
     lean_module = "Starcal.Props.C13"
     src_ties = ["Starcal.SrcTie.Humanize", "Starcal.SrcTie.NumList"]
+    src_overflow = ["Starcal.SrcTie.NoOverflow2"]
     expected = "Humanize keeps the set and leaves only half-open intervals and points; Extract(IntervalListByNumList(ns,k)) = ns; ParseInterval(String(i)) = i, ParseIntervalList(String(l)) = l; reversed interval text rejected"
     rule = ("line protocol: `show`/`parse` for every well-formed interval with end points in [-40,40] and seeded |x| < 2^62; `showlist`/`parselist` for all "
             "lists of <=3 intervals over -3..3 (thorough; <=2 plus samples in quick); `bynum` for every subset of [-5,5] and seeded strictly increasing lists from "
